@@ -767,12 +767,30 @@ func (g *G) genC06(p *Plan, listing bool) {
 	for i := 0; i < nup; i++ {
 		ops = append(ops, Op{K: "mpu-init", B: b, Key: key(), Meta: g.meta()})
 	}
+	// a file-system backend refuses to complete an upload whose key lies below
+	// a stored key; the upload stays pending, whole, and completes once the
+	// key in the way is gone
+	deep := -1
+	if c.IsFS() && !listing && g.chance(0.2) {
+		ops = append(ops, Op{K: "put", B: b, Key: "way/in", Body: g.body(g.smallSize())},
+			Op{K: "mpu-init", B: b, Key: "way/in/deeper", Meta: g.meta()})
+		deep = nup
+		nup++
+	}
 	uploaded := map[int][]int{}
 	n := g.n(10, 30)
 	for i := 0; i < n; i++ {
 		up := g.rng.Intn(nup)
+		if deep >= 0 && g.chance(0.3) {
+			up = deep
+		}
 		var op Op
 		switch r := g.rng.Intn(100); {
+		case deep >= 0 && r < 8:
+			op = Op{K: g.pick("del", "put", "del"), B: b, Key: "way/in"}
+			if op.K == "put" {
+				op.Body = g.body(g.smallSize())
+			}
 		case r < 45:
 			pn := partNumbers[g.rng.Intn(len(partNumbers))]
 			if g.chance(0.2) {
